@@ -53,6 +53,9 @@ func cmdVerify(args []string) int {
 		fmt.Fprintln(os.Stderr, "load:", err)
 		return 2
 	}
+	for _, ce := range prog.ContractErrors {
+		fmt.Println("CONTRACT FILE ERROR:", ce)
+	}
 	opts := &Options{Unroll: *unroll, Budget: *budget, Smoke: *smoke, Verbose: *verbose, Jobs: *jobs, DumpDir: *dump}
 	var keys []string
 	// implementations of interface methods are verified against the interface contract
